@@ -151,6 +151,9 @@ def check(ctx, floors=True, only_literals=False):
         G.syn_arms(ctx, "C09.4", strict_alloc=True)
     with ctx.only(lambda k: k == "fields/box-wrap"):
         G.field_templates(ctx, "C09.4", strict_alloc=True)
+    # C09.3b the root module ident: every generated reference is `<root>::<all path segments>` (unconditionally)
+    with ctx.only(lambda k: k.startswith("generated-path/")):
+        G.generated_path(ctx, "C09.3")
     # C09.5 docs
     df = q.fn1(P, "TypeGenerator::<'a>::docs_from_scale_info", "scale_typegen")
     if df is None:
